@@ -136,6 +136,16 @@ func (l *Loader) loadWithContent(path, content string, visited map[string]bool) 
 		})
 	}
 
+	result, includeErrors := l.resolveIncludes(path, journal, visited)
+	errors = append(errors, includeErrors...)
+
+	return result, errors
+}
+
+// resolveIncludes follows the include directives of an already parsed file.
+func (l *Loader) resolveIncludes(path string, journal *ast.Journal, visited map[string]bool) (*ResolvedJournal, []LoadError) {
+	var errors []LoadError
+
 	result := NewResolvedJournal(journal)
 	visited[path] = true
 
@@ -230,8 +240,13 @@ func (l *Loader) loadSingleInclude(
 	cached, ok := l.cache[includePath]
 	l.mu.RUnlock()
 	if ok {
+		// the cache saves re-parsing the file; its own includes still have to be followed
+		subResult, subErrors := l.resolveIncludes(includePath, cached, visited)
+		errors = append(errors, subErrors...)
 		result.Files[includePath] = cached
 		result.FileOrder = append(result.FileOrder, includePath)
+		maps.Copy(result.Files, subResult.Files)
+		result.FileOrder = append(result.FileOrder, subResult.FileOrder...)
 		return errors
 	}
 
